@@ -4,6 +4,7 @@ import (
 	"encoding/base64"
 	"fmt"
 	"strings"
+	"time"
 )
 
 // C09 - AUTH is unreachable on insecure connections and succeeds at most once;
@@ -130,7 +131,10 @@ func genC09(t *Tape, tier string) *Scenario {
 		if tlsActive {
 			a.Epoch = 1
 		}
-		behaviour := t.Pick(5, 2, 2, 1, 1) // 0 straight, 1 bad base64 at some step, 2 cancel at some step, 3 unknown mechanism, 4 cut
+		// 0 straight, 1 bad base64 at some step, 2 cancel at some step, 3 unknown mechanism, 4 cut,
+		// 5 the client stays silent after a challenge for longer than ReadTimeout and answers late,
+		// 6 the answer to a challenge is longer than the line limit
+		behaviour := t.Pick(5, 2, 2, 1, 1, 1, 1)
 		at := t.Intn(len(script) + 1)
 		if behaviour == 3 {
 			a.Mech = "BOGUS"
@@ -178,6 +182,19 @@ func genC09(t *Tape, tier string) *Scenario {
 				}
 				if behaviour == 4 && i == at%maxInt(1, len(script)) {
 					a.Outcome = "cut"
+					break
+				}
+				if behaviour == 5 && i == at%maxInt(1, len(script)) {
+					a.Outcome = "stall"
+					sc.Srv.ReadTO = 10 * time.Second
+					steps = append(steps, Step{Kind: kAuthResp, Data: []byte("c3RhbGxlZA==\r\n"), Need: 334, Wait: 1, Pre: 11 * time.Second})
+					a.NSteps++
+					break
+				}
+				if behaviour == 6 && i == at%maxInt(1, len(script)) {
+					a.Outcome = "longline"
+					steps = append(steps, Step{Kind: kAuthResp, Data: []byte(strings.Repeat("QUJD", 600) + "\r\n"), Need: 334, Wait: 1})
+					a.NSteps++
 					break
 				}
 				var tok string
@@ -424,14 +441,14 @@ func checkC09(sc *Scenario, h *History) []Violation {
 				} else {
 					authed = true
 				}
-			case "fail", "badb64", "cancel", "unknown-mech":
+			case "fail", "badb64", "cancel", "unknown-mech", "stall", "longline":
 				if last.Code/100 == 2 || last.Code == 334 {
 					v("C09.failure", "attempt %d (%s): the exchange ended with %s", ai, a.Outcome, last)
 				}
 			}
 		}
 		// after the attempt the connection is in command mode: the marker is executed
-		if ai < len(x.Markers) {
+		if ai < len(x.Markers) && a.Outcome != "longline" {
 			if m := replyOf[x.Markers[ai]]; m != nil && m.Code != 250 {
 				v("C09.command-mode", "attempt %d (%s): the NOOP after it was answered %s", ai, a.Outcome, m)
 			}
@@ -575,6 +592,9 @@ func classifyC09(sc *Scenario, h *History, st *Stats) string {
 	for _, a := range x.Attempts {
 		o = append(o, fmt.Sprintf("%s/%d/%v", a.Outcome, a.Epoch, a.Allowed))
 		st.Probes["attempt_"+a.Outcome]++
+		if (a.Outcome == "stall" || a.Outcome == "longline") && a.NSteps > 1 && h.Conns[0].StepOff[a.StepIdx+a.NSteps-1] >= 0 {
+			st.Faults["client_answers_a_challenge_"+map[string]string{"stall": "later_than_ReadTimeout", "longline": "with_an_over-long_line"}[a.Outcome]]++
+		}
 		if !a.Allowed {
 			st.Probes["attempt_not_permitted"]++
 		}
@@ -619,7 +639,7 @@ func init() {
 		Real:        []string{"smtp.Server.Serve/handleConn", "smtp.Conn handleAuth, handleGreet (capabilities), handleStartTLS", "smtp.Client.Auth, NewClientStartTLS", "crypto/tls (client and server)", "net/textproto"},
 		Stub:        []string{"net.Listener (SimListener)", "net.Conn (SimConn)", "Backend/AuthSession (SimBackend)", "sasl.Server and sasl.Client (scripted, recording)", "clock (synctest)", "SMTP client of the server half (raw driver)"},
 		Assumptions: []string{"a nil (as opposed to empty) response from a client mechanism's Next is an unspecified contract and is not generated", "the reply code of a failed/malformed/cancelled exchange is not judged, only that it is not positive and the connection is back in command mode"},
-		Required:    []string{"attempt_235", "attempt_badb64", "attempt_cancel", "attempt_fail", "attempt_unknown-mech", "attempt_not_permitted", "attempt_after_success", "auth_after_failed_starttls_handshake", "client_half", "client_mechanism_error", "empty_initial_response", "tls_handshake_completed"},
+		Required:    []string{"attempt_235", "attempt_badb64", "attempt_cancel", "attempt_fail", "attempt_unknown-mech", "attempt_not_permitted", "attempt_after_success", "auth_after_failed_starttls_handshake", "client_half", "client_mechanism_error", "empty_initial_response", "tls_handshake_completed", "client_answers_a_challenge_later_than_ReadTimeout", "client_answers_a_challenge_with_an_over-long_line"},
 		QuickRuns:   40000, ThoroughRuns: 1000000,
 	})
 }
